@@ -137,10 +137,16 @@ H("s8_unmask_response", "verif_kani_opaque::s8_unmask_response", "unmask_respons
 for n, d in (("default_ids", "both identities absent"), ("explicit_ids", "client id 2 bytes, server id 1 byte"), ("mixed_ids", "one absent, one empty")):
     H("s9_seal_" + n, "verif_kani_envelope::s9_seal_" + n,
       "Envelope::seal == RFC 9807 Store: nonce from RNG, client key = DeriveDHKeyPair(Expand(rpwd, nonce||'PrivateKey')), export key, auth_tag over nonce||server_pk||len||id_s||len||id_u",
-      d + "; randomized_pwd, server key, identities, tape symbolic", covers=["reached"], loops=SLICE_LOOPS + KEYLOOPS, timeout=2400, mem_gb=24)
+      d + "; randomized_pwd, server key, identities, tape symbolic", covers=["reached"], loops=SLICE_LOOPS + KEYLOOPS, timeout=3000, mem_gb=18)
     H("s9_open_" + n, "verif_kani_envelope::s9_open_" + n,
       "Envelope::open: Ok <=> tag == MAC(...) ; recovers the same client key pair and export key; hands on effective identities; else SealOpenHmacError",
-      d + "; randomized_pwd, server key, identities, 40-byte envelope symbolic", covers=["opened", "rejected"], loops=SLICE_LOOPS + KEYLOOPS, timeout=2400, mem_gb=24)
+      d + "; randomized_pwd, server key, identities, 40-byte envelope symbolic", covers=["opened", "rejected"], loops=SLICE_LOOPS + KEYLOOPS, timeout=3000, mem_gb=18)
+
+H("s9_open_raw_exact", "verif_kani_envelope::s9_open_raw_exact", "Envelope::open_raw: Ok <=> tag == MAC(auth_key, nonce||aad); export key formula; else SealOpenHmacError",
+  "every randomized_pwd, 40-byte envelope, 5 bytes of associated data in two parts", covers=["opened", "rejected"], loops=SLICE_LOOPS, timeout=1800, mem_gb=12)
+H("s9_seal_raw", "verif_kani_envelope::s9_seal_raw", "Envelope::seal_raw: auth_tag and export key formulas", "every randomized_pwd, nonce, associated data",
+  covers=["reached"], loops=SLICE_LOOPS, timeout=1800, mem_gb=12)
+H("s9_construct_aad_order", "verif_kani_envelope::s9_construct_aad_order", "construct_aad yields server_pk, id_s, id_u in this order", "symbolic parts", covers=["reached"], loops=SLICE_LOOPS)
 
 # ---- S10 / S11 (tripledh.rs)
 H("s11_derive_3dh_keys", "verif_kani_tripledh::s11_derive_3dh_keys",
@@ -152,12 +158,49 @@ H("s11_derive_3dh_keys_external", "verif_kani_tripledh::s11_derive_3dh_keys_exte
 for n, d in (("ctx0_default_ids", "empty context, default identities"), ("ctx2_explicit_idu", "2-byte context, explicit 1-byte client identity")):
     H("s10_generate_ke2_" + n, "verif_kani_tripledh::s10_generate_ke2_" + n,
       "TripleDh::generate_ke2 == RFC 9807 AuthServerRespond: fresh nonce/ephemeral key from the RNG, preamble over context, identities, request, response, nonce, key share; server MAC; pending state (Km3, Hash(preamble||mac), session key)",
-      d + "; request, response, keys, tape symbolic", covers=["reached"], loops=SLICE_LOOPS + KEYLOOPS, timeout=3600, mem_gb=30)
+      d + "; request, response, keys, tape symbolic", covers=["reached"], loops=SLICE_LOOPS + KEYLOOPS, timeout=3600, mem_gb=22)
     H("s10_generate_ke3_" + n, "verif_kani_tripledh::s10_generate_ke3_" + n,
       "TripleDh::generate_ke3 == RFC 9807 AuthClientFinalize: Ok <=> received MAC == MAC(Km2, Hash(preamble)); session key; client MAC over Hash(preamble||server_mac); else InvalidLoginError",
-      d + "; request, response, KE2 message, client state, keys symbolic", covers=["accept", "reject"], loops=SLICE_LOOPS + KEYLOOPS, timeout=3600, mem_gb=30)
+      d + "; request, response, KE2 message, client state, keys symbolic", covers=["accept", "reject"], loops=SLICE_LOOPS + KEYLOOPS, timeout=3600, mem_gb=22)
 H("s10_expand_label_limits", "verif_kani_tripledh::s10_expand_label_limits", "hkdf_expand_label == RFC Expand-Label; 256-byte context refused",
   "context 8 symbolic bytes / 256 bytes", covers=["ok", "256 refused"])
+
+# ---- G: concrete groups (external crate /verif/kani-ext, public API, real arithmetic at byte level)
+def G(name, mod, what, bounds, covers, **kw):
+    H(name, mod + "::" + name, what, bounds, covers=covers, project="ext", **kw)
+G("g1_x25519_sk_decode", "g_curve25519", "Curve25519 deserialize_sk: Ok <=> RFC 7748-clamped; re-encodes to the input", "all 2^256 32-byte strings", ["ok", "err"])
+G("g1_x25519_sk_lengths", "g_curve25519", "Curve25519 private keys of length != 32 refused", "lengths 0..=64", ["reached"])
+G("g3_x25519_derive", "g_curve25519", "Curve25519 derive_auth_keypair(seed) == clamp(seed), valid, non-zero", "all 2^256 seeds", ["reached"])
+G("g2_x25519_pk_roundtrip", "g_curve25519", "Curve25519 deserialize_pk: length 32 only; accepted keys re-encode to the input", "lengths 0..=64, all contents", ["ok"])
+G("g2_x25519_pk_small_order", "g_curve25519", "Curve25519 deserialize_pk never accepts a small-order u-coordinate (0, 1, p-1, the two order-8 values; mod p, bit 255 ignored)", "all 2^256 strings", ["ok", "err"])
+G("g2_x25519_pk_no_alias", "g_curve25519", "two different accepted Curve25519 public-key encodings never compare equal", "all pairs of 32-byte strings", ["both decode"], known_finding="F3-x25519-noncanonical")
+G("g2_x25519_pk_no_alias_canonical", "g_curve25519", "same, restricted to canonical encodings (u < p, bit 255 clear)", "all pairs of canonical strings", ["both decode"])
+G("g4_ristretto_sk_decode", "g_ristretto", "ristretto255 deserialize_sk: Ok <=> 0 < s < l; re-encodes to the input", "all 2^256 strings", ["ok", "err"])
+G("g4_ristretto_lengths_identity", "g_ristretto", "ristretto255 keys of length != 32 refused; identity public key refused", "lengths 0..=64", ["reached"])
+G("g5_p256_sk_decode", "g_nist", "P-256 deserialize_sk: Ok <=> 0 < v < n; re-encodes to the input", "all 2^256 strings", ["ok", "err"], timeout=1800, mem_gb=16)
+G("g6_p256_pk_unknown_tags", "g_nist", "P-256 deserialize_pk refuses every SEC1 tag outside {0,2,3,4,5}", "33-byte strings, tag and x symbolic", ["reached"], timeout=1800, mem_gb=16)
+G("g6_p256_pk_tag_cases", "g_nist", "P-256 deserialize_pk with tags 0/2/3/4/5 and the generator's x: accepted => re-encodes to the input", "5 tags x concrete valid x", ["ok", "err"], timeout=2400, mem_gb=24)
+
+# ---- W: wiring harnesses (real step functions; private units replaced by reference stubs proved equal in S6-S9; recording key exchange)
+WDEP = dict(also_depends=["w_stubs.rs", "spec_steps.rs"])
+DRAIN = [(r"w_stubs::drain", 100)]
+for n, d in (("default_ids", "identities absent"), ("explicit_ids", "client id 2 bytes, server id 1 byte"), ("mixed_ids", "client absent, server empty")):
+    H("w1_client_reg_finish_" + n, "h_wire::w1_client_reg_finish_" + n,
+      "ClientRegistration::finish == RFC 9807 FinalizeRegistrationRequest: reflected value refused first; KSF instance forwarded; record = client_pk||masking_key||envelope; export key; server_s_pk of the response; only the envelope nonce is drawn",
+      d + "; state, response, password(2), KSF behaviour, tape symbolic", covers=["ok", "reflected", "ksf failure"], loops=DRAIN + KEYLOOPS, timeout=1800, mem_gb=16, **WDEP)
+for n, d in (("default_ids", "identities and context absent"), ("explicit_ids_ctx", "client id 2, server id 1, context 2 bytes"), ("mixed_ids", "client empty, server absent, context 2 bytes")):
+    H("w3_client_login_finish_" + n, "h_wire::w3_client_login_finish_" + n,
+      "ClientLogin::finish == RFC 9807 RecoverCredentials + AuthClientFinalize wiring: reflected value refused; KSF forwarded; unmask/envelope failure => InvalidLoginError and no key exchange; 3DH gets request, response head, KE2, own state, unmasked server key, recovered client key, effective identities, context; outputs = KE outputs + recovered export key + unmasked server key",
+      d + "; 69-byte state, 117-byte response, password(2), KSF behaviour, KE outcome symbolic", covers=["ok", "reflected", "ksf failure", "invalid login", "mac rejected"], loops=DRAIN + KEYLOOPS, timeout=2400, mem_gb=20, **WDEP)
+for n, d in (("record", "registered user, no ids/context, credential id 2 bytes"), ("record_ids_ctx", "registered user, explicit ids and context, empty credential id"),
+             ("unregistered", "no password file, credential id 2 bytes"), ("unregistered_ids_ctx", "no password file, server id empty, context")):
+    H("w2_server_login_start_" + n, "h_wire::w2_server_login_start_" + n,
+      "ServerLogin::start == RFC 9807 CreateCredentialResponse + AuthServerRespond wiring: evaluation under the per-credential key; fresh masking nonce (and fake masking key) from the RNG; masked = pad XOR (setup public key || record envelope); fake record for None; 3DH gets request, response head, client key (fake key for None), the setup's static key, effective identities, context",
+      d + "; setup, record, request, KE results, tape symbolic", covers=["ok", "key exchange failure"], loops=DRAIN + KEYLOOPS, timeout=2400, mem_gb=20, **WDEP)
+for n in ("external_key", "external_key_unregistered"):
+    H("w2_server_login_start_" + n, "h_wire::w2_server_login_start_" + n,
+      "ServerLogin::start with an externally held static key: same response/state; exactly one public_key and one diffie_hellman call; key never serialized; failure at either call => the key's own Custom error, no response",
+      "failure at call 0(never)/1/2/3", covers=["ok", "public_key failure", "diffie_hellman failure"], loops=DRAIN + KEYLOOPS, timeout=2400, mem_gb=20, **WDEP)
 
 PROPERTIES["C03"] = dict(
     quick=["c03_server_finish_exact", "d_cred_fin", "d_server_login"],
